@@ -32,7 +32,7 @@ func init() {
 		Word32: true,
 		Level:  "model_checking",
 		Rule: "E2 explicit-state breadth-first search over real TailBitmap objects. Starts (all built with real calls): empty at offset 0/64/640/2^33; three words filled except H holes in forward, backward and interleaved fill order (offset 0 and 64); two starts that cross the real 1024-word reclaim threshold (1023 full words then holes; words 1..1025 full with the holes in word 0, so one Set compacts >1024 words), and five more in which a bit was set FAR AHEAD first (at word 2046, 2047, 2048, 2049, 4000), so that the tail surviving the compaction across the threshold is 1023, 1024, 1025, 1026 and ~3000 words long. " +
-			"Alphabet per state: Set(every hole), Set below Offset (0, Offset-1, Offset-64), Set beyond the end (end+1, end+129, while the bitmap has grown < 130 bits), Set of an already-set bit, Compact. Successors are produced by cloning the object and calling the real method; the state key is every field the implementation can read (Offset, Words, and all unexported fields through reflect). " +
+			"Alphabet per state: Set(every hole), Set below Offset (0, Offset-1, Offset-64), Set beyond the end (end+1, end+129, while the bitmap has grown < 130 bits), Set of an already-set bit, Compact. Successors are produced by cloning the object - into a buffer of exactly the capacity Words has in the real evolution, so that append and re-slicing continue as on the original - and calling the real method; the state key is every field the implementation can read (Offset, Words, all unexported fields through reflect) and the capacity of Words. " +
 			"After EVERY transition (before deduplication): Get/Get1 on the whole window [Offset-130, end) ∪ {0, o-1} against the model (when more than 1024 bits are stored: every bit within 66 of Offset, the end, every hole, every position ever set and the operation's index, plus the first and last bit of every stored word), Offset ≡ 0 mod 64 and monotone, no 0 bit skipped, first stored word ≠ all-ones after Set, highest index ever set < end, Compact changes no Get. Every discovered state is additionally re-reached by replaying its shortest path on a freshly built object (differential: cloned chain vs fresh replay), and every eighth state (and every state of depth ≤3) once more with a second, unrelated TailBitmap operated between the steps (objects must not share state). Non-trivial transitions: those that change the state.",
 		Assumptions: []string{
 			"histories are those reachable with the per-start alphabet; the search is complete for that alphabet (all reachable states, every operation from every state)",
@@ -215,11 +215,35 @@ func c15Starts(thorough bool) []c15Start {
 // ---- real-object helpers
 
 func c15Clone(tb *bitmap.TailBitmap) *bitmap.TailBitmap {
+	return c15CloneCap(tb, cap(tb.Words))
+}
+
+// c15CloneCap copies the object into a buffer of exactly the capacity the original has in its real
+// evolution (wcap): what append and re-slicing do next depends on len and cap only, so the clone
+// continues exactly as the original would - the spare capacity of Words is part of the state.
+func c15CloneCap(tb *bitmap.TailBitmap, wcap int) *bitmap.TailBitmap {
 	n := *tb // copies unexported fields too
-	// spare capacity only decides when append reallocates; a few words are enough
-	n.Words = make([]uint64, len(tb.Words), len(tb.Words)+4)
+	if wcap < len(tb.Words) {
+		wcap = len(tb.Words)
+	}
+	n.Words = make([]uint64, len(tb.Words), wcap)
 	copy(n.Words, tb.Words)
 	return &n
+}
+
+// c15Shrink moves Words into a buffer without spare capacity (stored states keep their real capacity
+// as a number, not as memory) and returns the capacity it had.
+func c15Shrink(tb *bitmap.TailBitmap) int {
+	wcap := cap(tb.Words)
+	w := make([]uint64, len(tb.Words))
+	copy(w, tb.Words)
+	tb.Words = w
+	return wcap
+}
+
+// c15KeyCap is the state key of an object whose Words have capacity wcap in the real evolution.
+func c15KeyCap(tb *bitmap.TailBitmap, wcap int) string {
+	return c15Key(tb) + "cap=" + strconv.Itoa(wcap)
 }
 
 // c15Key is the canonical state key: every field of the struct, exported or not.
@@ -392,6 +416,7 @@ func c15Invariant(prev, cur *bitmap.TailBitmap, m *c15Model, op c15Op, holes []i
 
 type c15Node struct {
 	tb     *bitmap.TailBitmap
+	wcap   int // capacity of tb.Words in the real evolution (tb itself is stored without spare capacity)
 	model  *c15Model
 	parent int
 	op     c15Op
@@ -449,8 +474,9 @@ func c15Run(c *mc.Ctx) {
 		if s := c15Invariant(root, root, m0, c15Op{Op: "start"}, st.holes); s != "" {
 			c.Fail(int64(si)<<40, "history", "history", c15Case{Start: st.name, Ops: nil}, s, "invariant holds")
 		}
-		nodes := []c15Node{{tb: root, model: m0, parent: -1}}
-		index := map[string]int{c15Key(root): 0}
+		rootCap := c15Shrink(root)
+		nodes := []c15Node{{tb: root, wcap: rootCap, model: m0, parent: -1}}
+		index := map[string]int{c15KeyCap(root, rootCap): 0}
 		var trans, changed, maxDepth int64
 		for head := 0; head < len(nodes); head++ {
 			if c.Expired() {
@@ -459,7 +485,7 @@ func c15Run(c *mc.Ctx) {
 			}
 			n := nodes[head]
 			for _, op := range c15Enabled(st, n.tb, startEnd) {
-				nt := c15Clone(n.tb)
+				nt := c15CloneCap(n.tb, n.wcap)
 				p := c15Apply(nt, op)
 				nm := n.model
 				if op.Op == "set" {
@@ -474,15 +500,16 @@ func c15Run(c *mc.Ctx) {
 					c.Fail(int64(si)<<40|trans, "history", "history", c15Case{Start: st.name, Ops: append(c15Path(nodes, head), op)}, viol, "invariant holds")
 					continue
 				}
-				k := c15Key(nt)
+				wc := c15Shrink(nt)
+				k := c15KeyCap(nt, wc)
 				if _, ok := index[k]; !ok {
 					index[k] = len(nodes)
-					nodes = append(nodes, c15Node{tb: nt, model: nm, parent: head, op: op, depth: n.depth + 1})
+					nodes = append(nodes, c15Node{tb: nt, wcap: wc, model: nm, parent: head, op: op, depth: n.depth + 1})
 					if int64(n.depth+1) > maxDepth {
 						maxDepth = int64(n.depth + 1)
 					}
 				}
-				if k != c15Key(n.tb) {
+				if k != c15KeyCap(n.tb, n.wcap) {
 					changed++
 				}
 			}
@@ -504,8 +531,8 @@ func c15Run(c *mc.Ctx) {
 				c15Apply(fresh, op)
 			}
 			replays++
-			if c15Key(fresh) != c15Key(nodes[i].tb) {
-				c.Fail(int64(si)<<40|1<<39|int64(i), "replay", "replay", c15Case{Start: st.name, Ops: path}, "state reached on a fresh object: "+clipS(c15Key(fresh)), "state reached through clones: "+clipS(c15Key(nodes[i].tb)))
+			if c15KeyCap(fresh, cap(fresh.Words)) != c15KeyCap(nodes[i].tb, nodes[i].wcap) {
+				c.Fail(int64(si)<<40|1<<39|int64(i), "replay", "replay", c15Case{Start: st.name, Ops: path}, "state reached on a fresh object: "+clipS(c15KeyCap(fresh, cap(fresh.Words))), "state reached through clones: "+clipS(c15KeyCap(nodes[i].tb, nodes[i].wcap)))
 			}
 			// bystander: the same history with a second, unrelated TailBitmap operated between the
 			// steps must end in the same state (objects do not share state)
@@ -519,8 +546,8 @@ func c15Run(c *mc.Ctx) {
 					b.Set(int64(128 + k))
 				}
 				bystanders++
-				if c15Key(a) != c15Key(nodes[i].tb) {
-					c.Fail(int64(si)<<40|1<<38|int64(i), "bystander", "bystander", c15Case{Start: st.name, Ops: path}, "state with a second TailBitmap operated in between: "+clipS(c15Key(a)), "state when run alone: "+clipS(c15Key(nodes[i].tb)))
+				if c15KeyCap(a, cap(a.Words)) != c15KeyCap(fresh, cap(fresh.Words)) {
+					c.Fail(int64(si)<<40|1<<38|int64(i), "bystander", "bystander", c15Case{Start: st.name, Ops: path}, "with a second TailBitmap operated in between: "+clipS(c15KeyCap(a, cap(a.Words))), "with a second TailBitmap operated in between: "+clipS(c15KeyCap(fresh, cap(fresh.Words))))
 				}
 			}
 		}
@@ -588,16 +615,18 @@ func c15Judge(kind string, cs c15Case) (got, want string) {
 			b.Set(int64(128 + k))
 			c15Apply(tb, op)
 		}
-		return "with a second TailBitmap operated in between: " + clipS(c15Key(a)), "with a second TailBitmap operated in between: " + clipS(c15Key(tb))
+		return "with a second TailBitmap operated in between: " + clipS(c15KeyCap(a, cap(a.Words))), "with a second TailBitmap operated in between: " + clipS(c15KeyCap(tb, cap(tb.Words)))
 	case "replay":
 		// clone after every step vs no clone at all
 		cl := st.build()
+		wc := c15Shrink(cl)
 		for _, op := range cs.Ops {
 			c15Apply(tb, op)
-			cl = c15Clone(cl)
+			cl = c15CloneCap(cl, wc)
 			c15Apply(cl, op)
+			wc = c15Shrink(cl)
 		}
-		return "fresh: " + clipS(c15Key(tb)), "fresh: " + clipS(c15Key(cl))
+		return "state reached on a fresh object: " + clipS(c15KeyCap(tb, cap(tb.Words))), "state reached through clones: " + clipS(c15KeyCap(cl, wc))
 	}
 	return "unknown kind " + kind, ""
 }
